@@ -363,3 +363,60 @@ def run_name_loc_pair(prog, tier, repo):
                                   f'off for this construct')
     res.floor('identifier nodes built by the parser', n, 3)
     return [res]
+
+
+# ---------------------------------------------------------------------------------------------------------------------
+# RESULT-LOC-IS-NAME (C14): the cursor search reports named things (a local, a class, a member, a field). The position it
+# reports for a name must be the location of that name's identifier node - `Id.loc` - and not the location of a larger node
+# that contains the identifier (an annotation with its type arguments, a whole expression): hover ranges, the key used for
+# the definition/uses lookup and rename edits all take this position to cover exactly the characters of the name.
+
+def run_result_loc(prog, tier, repo):
+    res = RuleResult('RESULT-LOC-IS-NAME', 'C14: every name-carrying result of the cursor search reports the location of the '
+                     'identifier node itself (`Id.loc`), not of an enclosing construct')
+    adt = [a for a in prog.adts.values() if a.name.endswith('location_cover::LocationCoverSearchResult')]
+    if len(adt) != 1:
+        res.cannot_decide('location_cover::LocationCoverSearchResult')
+        return [res]
+    adt = adt[0]
+    n = 0
+    for b in sorted(prog.bodies.values(), key=lambda x: x.name):
+        if b.crate != 'samlang_services' or '::location_cover::' not in b.name + '::' or '::tests' in b.name:
+            continue
+        for bl in b.blocks:
+            if bl.cleanup:
+                continue
+            for st in bl.stmts:
+                if st[0] != 'a' or st[2][0] != 'agg' or st[2][1][0] != 'adt' or st[2][1][1] != adt.id:
+                    continue
+                v = adt.variants[st[2][1][2]]
+                # variants that name something: they carry a Location and a name (PStr) or a type for a name
+                if not v.fields or not _is_loc(v.fields[0].ty) or v.name == 'Expression':
+                    continue
+                n += 1
+                nb = sum(1 for i in res.instances if i.key.startswith(f'result:{b.name}:{v.name}#')) + 1
+                key = f'result:{b.name}:{v.name}#{nb}'
+                o = st[2][2][0]
+                ok = False
+                what = 'a computed location'
+                if o[0] in ('c', 'm'):
+                    r, p = operand_root(b, o)
+                    fs = [e for e in p if e[0] == 'f']
+                    if fs:
+                        last = fs[-1]
+                        owner = prog.adts.get(last[1])
+                        what = f'`{owner.name.split("::")[-1] if owner else "?"}.{last[4]}`'
+                        ok = owner is not None and owner.name == 'samlang_ast::source::Id' and last[4] == 'loc'
+                        # a type-parameter annotation consists of the identifier only: the parser builds T::Generic with the
+                        # location of an identifier annotation *without* type arguments, which is the identifier's location
+                        if owner is not None and owner.name == 'samlang_ast::source::annotation::T' and owner.variants[last[2]].name == 'Generic' \
+                                and last[3] == 0:
+                            ok = True
+                if ok:
+                    res.ok(key, b.loc(st[3]), 'location of the identifier node')
+                else:
+                    res.violation(key, b.loc(st[3]), f'{b.name} reports {what} as the position of a name in a {v.name} result: the range is '
+                                  f'that of an enclosing construct (e.g. `Box<int>` for the name `Box`), so hover, the definition lookup '
+                                  f'key and rename edits do not cover exactly the characters of the name')
+    res.floor('name-carrying search results', n, 6)
+    return [res]
